@@ -89,7 +89,7 @@ let direct id c =
 (* ------------------------------------------------------------------------------------------ *)
 (* pipeline cases *)
 type tfile = { tf : int; told : int; tob : bool; tnew : int; tnb : bool; tins : int; tdel : int }
-type rstep = { rc : int; rnp : int; rm : bool; rauthor : int; rtick : int; rindex : int;
+type rstep = { rc : int; rnp : int; rm : bool; rauthor : int; rtick : int; rindex : int; rinst : int;
                rchanges : change list; renames : bool; rrows : row list; badfd : bool }
 
 let pipe id c =
@@ -101,12 +101,9 @@ let pipe id c =
       propfail id ("the pipeline run failed: " ^ tag o)
   | _ ->
   count "pipe_cases";
-  (* --- the plan *)
+  (* --- the plan of a separate planner call: informational, the planner is not deterministic across calls *)
   let plan = args (field "plan" obs) in
   let plan_commits = List.filter_map (fun a -> if tag a = "c" then Some (iarg a 0, iarg a 1) else None) plan in
-  let replays = Hashtbl.create 16 in
-  List.iter (fun (ci, _) -> Hashtbl.replace replays ci (1 + try Hashtbl.find replays ci with Not_found -> 0)) plan_commits;
-  let k_of ci = try Hashtbl.find replays ci with Not_found -> 0 in
   (* --- the steps the items saw *)
   let steps = List.map (fun s ->
     let a = args s in
@@ -122,21 +119,28 @@ let pipe id c =
           ChModify (f, lang, List.map edit_of_sx (args (nth (args ch) 6)))
       | t -> failwith ("unknown change " ^ t)) (args (field "ch" s)) in
     { rc = int_of_sx (nth a 0); rnp = int_of_sx (nth a 1); rm = bool_of_sx (nth a 2); rauthor = int_of_sx (nth a 3);
-      rtick = int_of_sx (nth a 4); rindex = int_of_sx (nth a 5); rchanges = changes; renames = !ren;
+      rtick = int_of_sx (nth a 4); rindex = int_of_sx (nth a 5); rinst = int_of_sx (nth a 8); rchanges = changes; renames = !ren;
       rrows = rows_of_obs (field "st" s); badfd = !badfd }) (args (field "steps" obs)) in
   let msteps = List.map (fun r ->
     { s_commit = n r.rc; s_nparents = n r.rnp; s_ismerge = r.rm; s_author = n r.rauthor; s_tick = n r.rtick; s_changes = r.rchanges }) steps in
+  (* the executed replay sequence, observed from inside the run *)
+  let replays = Hashtbl.create 16 in
+  List.iter (fun r -> Hashtbl.replace replays r.rc (1 + try Hashtbl.find replays r.rc with Not_found -> 0)) steps;
+  let k_of ci = try Hashtbl.find replays ci with Not_found -> 0 in
+  let exec_commits = List.map (fun r -> (r.rc, r.rinst)) steps in
+  if List.map fst exec_commits <> List.map fst plan_commits then count "second_planner_call_orders_commits_differently";
+  (* e.g. two root components of equal size: which one is analysed depends on Go map iteration order *)
+  if List.sort compare (List.map fst exec_commits) <> List.sort compare (List.map fst plan_commits) then
+    count "second_planner_call_replays_other_commits";
   (* --- the assumption about the replay sequence (C02 / C14) *)
-  let seq_ok = List.map (fun r -> r.rc) steps = List.map fst plan_commits in
-  if not seq_ok then mismatch id "the commits consumed by the items are not the commit steps of PrepareRunPlan";
   let rok = replay_ok msteps in
   if not rok then mismatch id "replay_ok fails: merge flag <-> replayed more than once, at most one replay per parent";
   (* replays of one commit are adjacent, on different branches, consecutively numbered *)
   (let seenc = Hashtbl.create 16 and seenb = Hashtbl.create 16 and prev = ref (-1) in
    List.iter (fun (ci, b) ->
-     if ci <> !prev && Hashtbl.mem seenc ci then mismatch id (Printf.sprintf "replays of commit %d are not adjacent in the plan" ci);
+     if ci <> !prev && Hashtbl.mem seenc ci then mismatch id (Printf.sprintf "replays of commit %d are not adjacent in the run" ci);
      if Hashtbl.mem seenb (ci, b) then mismatch id (Printf.sprintf "commit %d replayed twice on branch %d" ci b);
-     Hashtbl.replace seenc ci true; Hashtbl.replace seenb (ci, b) true; prev := ci) plan_commits);
+     Hashtbl.replace seenc ci true; Hashtbl.replace seenb (ci, b) true; prev := ci) exec_commits);
   List.iteri (fun i r -> if r.rindex <> i then mismatch id "DependencyIndex is not the position in the replay sequence") steps;
   if List.exists (fun r -> r.badfd) steps then mismatch id "a modified file without FileDiff data";
   let merges = List.length (List.filter (fun r -> r.rm) steps) in
@@ -182,7 +186,7 @@ let pipe id c =
     (int_of_sx (nth a 0), int_of_sx (nth a 1),
      List.map (fun f -> { tf = iarg f 0; told = iarg f 1; tob = iarg f 2 <> 0; tnew = iarg f 3; tnb = iarg f 4 <> 0; tins = iarg f 5; tdel = iarg f 6 })
        (List.tl (List.tl a)))) (args (field "truth" obs)) in
-  let commits_analysed = List.sort_uniq compare (List.map fst plan_commits) in
+  let commits_analysed = List.sort_uniq compare (List.map fst exec_commits) in
   List.iter (fun ci -> count "commits_analysed"; if k_of ci > 1 then count "commits_replayed_on_several_branches") commits_analysed;
   (* --- (P1) every commit counted at most once, exactly once when it must be *)
   let differs_all ci = List.for_all (fun (c', _, fs) -> c' <> ci || fs <> []) truth in
@@ -193,33 +197,48 @@ let pipe id c =
   let keys_of ci = List.sort_uniq compare (List.map (fun r -> (r.rtick, r.rauthor)) (steps_of ci)) in
   let all_keys = List.sort_uniq compare (List.map fst real_devs @ List.concat_map keys_of commits_analysed) in
   let commits_at k = try (let (cm, _, _) = List.assoc k real_devs in cm) with Not_found -> 0 in
+  let complaints = ref [] in
+  let complain m = complaints := m :: !complaints in
   List.iter (fun k ->
     let upper = List.length (List.filter (fun ci -> may ci && List.mem k (keys_of ci)) commits_analysed) in
     let lower = List.length (List.filter (fun ci -> must ci && keys_of ci = [k]) commits_analysed) in
     let got = commits_at k in
     if got > upper then
-      propfail id (Printf.sprintf "tick %d developer %d: %d commits counted but only %d countable commit(s) were replayed there (a commit is counted more than once, or an empty one although empty commits are off)" (fst k) (snd k) got upper)
+      complain (Printf.sprintf "tick %d developer %d: %d commits counted but only %d countable commit(s) were replayed there (a commit is counted more than once, or an empty one although empty commits are off)" (fst k) (snd k) got upper)
     else if got < lower then
-      propfail id (Printf.sprintf "tick %d developer %d: %d commits counted but %d commit(s) that change files w.r.t. every parent (or empty commits on) belong there" (fst k) (snd k) got lower)) all_keys;
+      complain (Printf.sprintf "tick %d developer %d: %d commits counted but %d commit(s) that change files w.r.t. every parent (or empty commits on) belong there" (fst k) (snd k) got lower)) all_keys;
   let total = List.fold_left (fun acc (_, (cm, _, _)) -> acc + cm) 0 real_devs in
   let n_may = List.length (List.filter may commits_analysed) and n_must = List.length (List.filter must commits_analysed) in
-  if total > n_may then propfail id (Printf.sprintf "%d commits counted in total, only %d countable commits analysed" total n_may)
-  else if total < n_must then propfail id (Printf.sprintf "%d commits counted in total, %d commits must be counted" total n_must);
+  if total > n_may then complain (Printf.sprintf "%d commits counted in total, only %d countable commits analysed" total n_may)
+  else if total < n_must then complain (Printf.sprintf "%d commits counted in total, %d commits must be counted" total n_must);
+  (* the judgement itself is the extracted once_ok (C12_once_oracle), on the replay sequence whose change
+     lists are the DECLARED differences between the commit and the commit its branch held before *)
+  if List.length truth <> List.length msteps || List.exists2 (fun (c', _, _) m -> c' <> ni m.s_commit) truth msteps then failwith "truth and steps are not aligned";
+  let tsteps = List.map2 (fun m (_, _, fs) -> { m with s_changes = List.map (fun _ -> ChInsert (N0, N0, None)) fs }) msteps truth in
+  let table = List.map (fun ((t, a), (cm, _, _)) -> ((n t, n a), n cm)) real_devs in
+  let ok = once_ok cec tsteps table in
+  (match ok, List.rev !complaints with
+   | false, m :: _ -> propfail id m
+   | false, [] -> propfail id "the Commits counters violate once_ok (every commit at most once, exactly once when it must be counted)"
+   | true, m :: _ -> mismatch id ("driver-failure: the diagnostic oracle complains but once_ok accepts: " ^ m)
+   | true, [] -> ());
   if n_must < n_may then count "pipe_cases_with_optional_commits";
   List.iter (fun ci -> if k_of ci > 1 then (if must ci then count "merges_must_count" else if may ci then count "merges_may_count" else count "merges_empty")
                        else if not (may ci) then count "empty_single_commits") commits_analysed;
   (* --- (P2) the listing = commits replayed on one branch, each once *)
   let listed = List.sort compare (List.map (fun (c, _, _, _) -> c) real_commits) in
-  let single = List.filter (fun ci -> k_of ci = 1) commits_analysed in
+  let single = List.filter (fun ci -> single_branch msteps (n ci)) commits_analysed in
   if listed <> single then
     propfail id (Printf.sprintf "CommitsResult lists [%s] but the commits replayed on a single branch are [%s]"
                    (String.concat " " (List.map string_of_int listed)) (String.concat " " (List.map string_of_int single)));
-  (* --- (P3) language sums *)
-  List.iter (fun ((t, a), (_, (x, y, z), langs)) ->
-    let (sx, sy, sz) = List.fold_left (fun (p, q, r) (_, x, y, z) -> (p + x, q + y, r + z)) (0, 0, 0) langs in
+  (* --- (P3) language sums, judged by the extracted langs_sum_ok *)
+  List.iter (fun ((t, a), (cm, (x, y, z), langs)) ->
+    let dd = { dt_commits = n cm; dt_stats = mk_stats x y z; dt_langs = List.map (fun (l, x, y, z) -> (n l, mk_stats x y z)) langs } in
     count "devticks";
-    if (sx, sy, sz) <> (x, y, z) then
-      propfail id (Printf.sprintf "tick %d developer %d: languages sum to +%d -%d ~%d but the totals are +%d -%d ~%d" t a sx sy sz x y z)) real_devs;
+    if not (langs_sum_ok dd) then begin
+      let (sx, sy, sz) = List.fold_left (fun (p, q, r) (_, x, y, z) -> (p + x, q + y, r + z)) (0, 0, 0) langs in
+      propfail id (Printf.sprintf "tick %d developer %d: languages sum to +%d -%d ~%d but the totals are +%d -%d ~%d" t a sx sy sz x y z)
+    end) real_devs;
   (* --- (P4) conservation for every non-merge commit, at three observation points *)
   let exp_ins = Hashtbl.create 16 and exp_del = Hashtbl.create 16 in
   let bump h k v = Hashtbl.replace h k (v + try Hashtbl.find h k with Not_found -> 0) in
